@@ -156,7 +156,9 @@ func (r *Report) Violation(replay interface{}, what string) {
 	os.WriteFile(p, b, 0o644)
 	r.violPaths = append(r.violPaths, p)
 	fmt.Printf("VIOLATION property=%s replay=%s\n", r.Prop, p)
-	fmt.Printf("  what: %s\n", trunc(what, 600))
+	if len(r.violPaths) <= 5 {
+		fmt.Printf("  what: %s\n", trunc(strings.ReplaceAll(what, "\n", " ⏎ "), 400))
+	}
 }
 
 func trunc(s string, n int) string {
